@@ -541,3 +541,75 @@ func TestC14Races(t *testing.T) {
 	defer r.Flush()
 	kit.CheckRun(t, r, c14Gen, c14Exec(t, r))
 }
+
+// c14StopGen: several parties stop the same topics at the same moment - two connections delete one
+// account (each request makes the hub start a goroutine which stops that user's topics), the account's
+// owner groups are deleted by the owner, the peer deletes the P2P topic - while the account has many
+// topics loaded, so that the goroutines meet on the same topic.
+func c14StopGen(rt *rapid.T) wProg {
+	p := wProg{}
+	p.Cfg = wConfig{Users: 3, NoPush: true, Root: gPct(rt, 30)}
+	gLat(rt, &p, 30)
+	// user 1 is the account which goes; it has two or three connections
+	p.Sess = append([]int(nil), gPick(rt, [][]int{{0, 1, 1, 2}, {0, 1, 1, 1, 2}, {0, 1, 1, 2, 2}}, "layout")...)
+	var mine []int
+	for s, u := range p.Sess {
+		if u == 1 {
+			mine = append(mine, s)
+		}
+	}
+	p.Ops = append(p.Ops, wOp{K: "sub", S: 0, T: "new"})
+	// topics of user 1: 'me', 'fnd', both P2P topics, a few groups of its own
+	for _, s := range mine {
+		for _, t := range []string{"me", "fnd", "p0", "p2"} {
+			if gPct(rt, 70) {
+				p.Ops = append(p.Ops, wOp{K: "sub", S: s, T: t})
+			}
+		}
+	}
+	for k, n := 0, gInt(rt, 0, 3, "owned"); k < n; k++ {
+		p.Ops = append(p.Ops, wOp{K: "sub", S: mine[0], T: "new"})
+	}
+	for s, u := range p.Sess {
+		if u != 1 && gPct(rt, 60) {
+			p.Ops = append(p.Ops, wOp{K: "sub", S: s, T: "p1"})
+		}
+	}
+	var par []wOp
+	used := map[int]bool{}
+	for _, s := range mine {
+		if gPct(rt, 85) {
+			par = append(par, wOp{K: "del", S: s, A: "user", U: 1, F: gPct(rt, 70), L: gInt(rt, 0, 3, "y")})
+			used[s] = true
+		}
+	}
+	if p.Cfg.Root && gPct(rt, 50) {
+		par = append(par, wOp{K: "del", S: 0, A: "user", U: 1, F: true, L: gInt(rt, 0, 3, "yr")})
+		used[0] = true
+	}
+	for s, u := range p.Sess {
+		if used[s] || !gPct(rt, 50) {
+			continue
+		}
+		switch {
+		case u != 1:
+			par = append(par, gPick(rt, []wOp{{K: "del", S: s, T: "p1", A: "topic", F: true}, {K: "pub", S: s, T: "p1"}, {K: "leave", S: s, T: "p1", F: true}, {K: "sub", S: s, T: "p1"}}, "peer"))
+		default:
+			par = append(par, gPick(rt, []wOp{{K: "del", S: s, T: "g1", A: "topic", F: true}, {K: "leave", S: s, T: "me"}, {K: "pub", S: s, T: "p0"}}, "own"))
+		}
+		par[len(par)-1].L = gInt(rt, 0, 3, "yo")
+	}
+	if len(par) >= 2 {
+		p.Ops = append(p.Ops, wOp{K: "par", Par: par})
+	} else {
+		p.Ops = append(p.Ops, par...)
+	}
+	p.Ops = append(p.Ops, wOp{K: "tick", N: 100}, wOp{K: "sub", S: 0, T: "g0"}, wOp{K: "pub", S: 0, T: "g0"})
+	return p
+}
+
+func TestC14Stops(t *testing.T) {
+	r := kit.Begin("C14", "TestC14Stops")
+	defer r.Flush()
+	kit.CheckRun(t, r, c14StopGen, c14Exec(t, r))
+}
